@@ -43,11 +43,12 @@ EXPLANATION = ("Theorems C02.* hold for every population (repeats included), eve
                "meeting OpContract; the correspondence ties Core/Variation.lean to deap.algorithms.varAnd/varOr by "
                "replaying recorded runs (oids, call trace, genomes, fitness validity, parents).")
 
-REPS = ["list", "array", "numpy", "tree"]
+REPS = ["list", "array", "numpy", "tree", "es"]
 OPS = {
     "list": (["cxOnePoint", "cxTwoPoint", "cxUniform"], ["mutFlipBit", "mutShuffleIndexes", "mutUniformInt"]),
     "array": (["cxOnePoint", "cxTwoPoint", "cxBlend", "cxUniform"], ["mutGaussian", "mutShuffleIndexes"]),
     "numpy": (["cxTwoPointCopy", "cxUniform", "cxBlend"], ["mutGaussian", "mutFlipBit", "mutShuffleIndexes"]),
+    "es": (["cxESBlend", "cxESTwoPoint"], ["mutESLogNormal"]),
     "tree": (["gp.cxOnePoint", "gp.cxOnePointLeafBiased"],
              ["gp.mutUniform", "gp.mutNodeReplacement", "gp.mutShrink", "gp.mutInsert", "gp.mutEphemeral"]),
 }
@@ -78,10 +79,12 @@ def _setup():
     if not hasattr(creator, "C02FitMax"):
         creator.create("C02FitMax", base.Fitness, weights=(1.0,))
         creator.create("C02FitMO", base.Fitness, weights=(-1.0, 1.0))
+    if not hasattr(creator, "C02FitCons"):
+        creator.create("C02FitCons", base.ConstrainedFitness, weights=(1.0,))
     cls = {}
-    for fk, fc in (("max", creator.C02FitMax), ("mo", creator.C02FitMO)):
+    for fk, fc in (("max", creator.C02FitMax), ("mo", creator.C02FitMO), ("cmax", creator.C02FitCons)):
         for rep, b, kw in (("list", list, {}), ("array", array.array, {"typecode": "d"}),
-                           ("numpy", numpy.ndarray, {}), ("tree", gp.PrimitiveTree, {})):
+                           ("numpy", numpy.ndarray, {}), ("tree", gp.PrimitiveTree, {}), ("es", list, {})):
             name = "C02_%s_%s" % (rep, fk)
             if not hasattr(creator, name):
                 creator.create(name, b, fitness=fc, **kw)
@@ -115,6 +118,8 @@ def operator_pair(mate, mutate, indpb):
         "cxUniform": lambda a, b: tools.cxUniform(a, b, indpb),
         "cxBlend": lambda a, b: tools.cxBlend(a, b, 0.5),
         "cxTwoPointCopy": cxTwoPointCopy,
+        "cxESBlend": lambda a, b: tools.cxESBlend(a, b, 0.5),
+        "cxESTwoPoint": tools.cxESTwoPoint,
         "gp.cxOnePoint": gp.cxOnePoint,
         "gp.cxOnePointLeafBiased": lambda a, b: gp.cxOnePointLeafBiased(a, b, 0.1),
     }[mate]
@@ -123,6 +128,7 @@ def operator_pair(mate, mutate, indpb):
         "mutShuffleIndexes": lambda a: tools.mutShuffleIndexes(a, indpb),
         "mutUniformInt": lambda a: tools.mutUniformInt(a, 0, 3, indpb),
         "mutGaussian": lambda a: tools.mutGaussian(a, 0.0, 1.0, indpb),
+        "mutESLogNormal": lambda a: tools.mutESLogNormal(a, 1.0, indpb),
         "gp.mutUniform": lambda a: gp.mutUniform(a, _expr_mut, PSET),
         "gp.mutNodeReplacement": lambda a: gp.mutNodeReplacement(a, PSET),
         "gp.mutShrink": gp.mutShrink,
@@ -156,10 +162,16 @@ def build(rep, fk, spec):
         ind = c(tree_nodes(spec["g"]))
     elif rep == "list":
         ind = c(int(x) for x in spec["g"])
+    elif rep == "es":
+        ind = c(float(x) for x in spec["g"])
+        ind.strategy = [float(x) for x in spec["strategy"]]     # mutable state outside the gene sequence
+        ind.info = {"tags": [1, [2]]}
     else:
         ind = c([float(x) for x in spec["g"]])
     if spec["fit"] is not None:
         ind.fitness.values = tuple(float(v) for v in spec["fit"])
+    if spec.get("cv") is not None:
+        ind.fitness.constraint_violation = [bool(x) for x in spec["cv"]]
     if spec.get("extra"):
         ind.history = [spec["extra"], [1, 2]]
         ind.meta = {"k": [0]}
@@ -177,6 +189,8 @@ def gene_keys(ind):
         return [("n", n.name, n.arity, repr(getattr(n, "value", None))) for n in ind]
     if isinstance(ind, numpy.ndarray):
         return [("x", repr(float(x))) for x in ind]
+    if hasattr(ind, "strategy"):       # evolution-strategy individual: genes and strategy vector are its genotype
+        return [("x", repr(x)) for x in ind] + [("|",)] + [("x", repr(x)) for x in ind.strategy]
     return [("x", repr(x)) for x in ind]
 
 
@@ -477,6 +491,13 @@ def evaluate(d):
             if id(o) in rec.touched and o.fitness.valid:
                 orc = "offspring %d went through mate/mutate but has the valid fitness %r" % (k, o.fitness.values)
                 break
+    # (4b) "invalid (empty) fitness": nothing of the old fitness is left behind
+    if orc is None:
+        for k, o in enumerate(out):
+            if not o.fitness.valid and (tuple(o.fitness.values) != () or tuple(o.fitness.wvalues) != ()):
+                orc = "offspring %d has an invalid fitness that is not empty: values=%r wvalues=%r" % (
+                    k, o.fitness.values, o.fitness.wvalues)
+                break
     # (5) valid fitness  =>  exactly the genotype and the fitness of an input individual
     if orc is None:
         par = set((s[1], _plain(x.fitness)) for s, x in zip(before_pop, pop))
@@ -506,7 +527,7 @@ def mk_genome(rng, rep):
     n = rng.randint(2, 6)
     if rep == "list":
         return [rng.randint(0, 1) if rng.random() < 0.7 else rng.randint(0, 3) for _ in range(n)]
-    if rep in ("array", "numpy"):
+    if rep in ("array", "numpy", "es"):
         if rng.random() < 0.3:
             return [float(rng.randint(0, 1)) for _ in range(n)]
         return [rng.randint(-8, 8) / 4.0 for _ in range(n)]
@@ -516,13 +537,13 @@ def mk_genome(rng, rep):
 
 
 def mk_fit(rng, fk):
-    return [rng.randint(-3, 3) for _ in range(1 if fk == "max" else 2)]
+    return [rng.randint(-3, 3) for _ in range(2 if fk == "mo" else 1)]
 
 
 def mk_case(rng, fn=None, rep=None, n=None, probs=None, mate=None, mutate=None, lam=None):
     fn = fn or rng.choice(["and", "or"])
     rep = rep or rng.choice(REPS)
-    fk = rng.choice(["max", "max", "mo"])
+    fk = rng.choice(["max", "max", "mo", "cmax"])
     n = rng.randint(0, 8) if n is None else n
     kind = rng.choice(["distinct", "distinct", "repeat", "same"])
     m = n if kind == "distinct" else (min(n, 1) if kind == "same" else (rng.randint(1, n) if n else 0))
@@ -536,6 +557,10 @@ def mk_case(rng, fn=None, rep=None, n=None, probs=None, mate=None, mutate=None, 
             g = mk_genome(rng, rep)
         ev = ek == "all" or (ek == "mixed" and rng.random() < 0.5)
         spec = {"g": g, "fit": mk_fit(rng, fk) if ev else None}
+        if rep == "es":
+            spec["strategy"] = [rng.randint(1, 8) / 4.0 for _ in g]
+        if fk == "cmax":
+            spec["cv"] = rng.choice([None, None, [False], [True, False]])
         if rng.random() < 0.3:
             spec["extra"] = i + 1
         inds.append(spec)
@@ -587,7 +612,7 @@ def generate(tier, rng, mult):
                         yield mk_case(rng, "and", rep, n, pr, mate, mutate)
                         if pr != (1.0, 1.0) or n == 2:
                             yield mk_case(rng, "or", rep, n, pr, mate, mutate, lam=rng.choice([1, 2, 3, 5]))
-    for _ in range((150000 if thorough else 8000) * mult):
+    for _ in range((150000 if thorough else 5000) * mult):
         yield mk_case(rng)
 
 
